@@ -3,19 +3,55 @@ sys.path.insert(0, os.path.dirname(os.path.dirname(os.path.abspath(__file__))))
 import checklib
 
 
+FACT_REQUESTS = (
+    ["runtime/timed/queue.go:" + f for f in [
+        "NewQueue", "Queue.Add", "Queue.Size", "Queue.Shutdown", "Queue.IsShutdown", "Queue.Poll", "Queue.removeElement",
+        "QueueElement.isCanceled", "QueueElement.Cancel", "QueueElement.cancelPending", "QueueElement.closeCancel", "WithMaxSize",
+        "consts=ShutdownFlag"]] +
+    ["runtime/timed/executor.go:" + f for f in [
+        "NewExecutor", "Executor.ExecuteAfter", "Executor.ExecuteAt", "Executor.Size", "Executor.WorkerCount", "Executor.Shutdown",
+        "Executor.startBackgroundWorkers", "WithMaxQueueSize"]] +
+    ["runtime/timed/taskexecutor.go:" + f for f in [
+        "NewTaskExecutor", "TaskExecutor.ExecuteAfter", "TaskExecutor.ExecuteAt", "TaskExecutor.Cancel"]] +
+    ["runtime/timed/heapkey.go:HeapKey.CompareTo"] +
+    ["ds/generalheap/generalheap.go:" + f for f in ["Heap.Len", "Heap.Less", "Heap.Swap", "Heap.Push", "Heap.Pop", "HeapElement.Index"]] +
+    ["runtime/timed:methods=" + t for t in ["Queue", "QueueElement", "Executor", "TaskExecutor", "HeapKey"]] +
+    ["ds/generalheap:methods=" + t for t in ["Heap", "HeapElement"]])
+
+
+def regen_facts(ctx):
+    """Regenerates lean/Hive/Gen/C18_Facts.lean (harness/c18/facts, go/ast): the normalised statements of every function of
+    the anchored files (guards, arguments, constants), the method sets of the types (a method added to TaskExecutor that
+    shadows a promoted Executor method changes the list) and the values of the ShutdownFlag constants.  Pinned by the
+    C18_facts_* theorems of Hive/Props/TimedFacts.lean."""
+    out = os.path.join(checklib.LEAN, "Hive", "Gen", "C18_Facts.lean")
+    tmp = os.path.join(ctx.scratch, "C18_Facts.lean")
+    args = ["go", "run", "./c18/facts", tmp, "Hive.Gen.C18Facts"] + [os.path.join(ctx.repo, r) for r in FACT_REQUESTS]
+    rc, log = checklib.sh(args, cwd=checklib.HARNESS, timeout=600)
+    if rc != 0 or not os.path.exists(tmp):
+        return [{"kind": "skeleton-extractor", "detail": checklib.tail(log, 20)}]
+    checklib.write_gen(ctx, out, open(tmp).read())
+    return []
+
+
 def regen(ctx):
     q, e, t = "runtime/timed/queue.go:", "runtime/timed/executor.go:", "runtime/timed/taskexecutor.go:"
-    return checklib.regen_skeletons(ctx, [
+    fails = checklib.regen_skeletons(ctx, [
         q + "Queue.Add", q + "Queue.Shutdown", q + "Queue.Poll", q + "QueueElement.Cancel", q + "Queue.removeElement",
         q + "QueueElement.isCanceled", q + "QueueElement.cancelPending", q + "QueueElement.closeCancel",
-        e + "Executor.Shutdown", e + "Executor.startBackgroundWorkers",
+        q + "Queue.IsShutdown", q + "Queue.Size",
+        e + "Executor.Shutdown", e + "Executor.startBackgroundWorkers", e + "Executor.ExecuteAt",
         t + "TaskExecutor.ExecuteAt", t + "TaskExecutor.Cancel",
+        q + "type=Queue", q + "type=QueueElement", e + "type=Executor", t + "type=TaskExecutor",
+        "runtime/timed/heapkey.go:type=HeapKey", "ds/generalheap/generalheap.go:type=HeapElement",
+        "ds/generalheap/generalheap.go:type=Heap",
     ], extra_methods=["Wait", "Signal", "Broadcast", "Cancel", "Add", "Poll", "ExecuteAt", "Get", "Set", "Delete",
-                      "Push", "Pop", "Remove", "cancelPending", "closeCancel"])
+                      "Push", "Pop", "Remove", "cancelPending", "closeCancel", "IsShutdown", "Shutdown", "Clear"])
+    return (fails or []) + regen_facts(ctx)
 
 
 SPEC = {
-    "lean_props": "Hive.Props.C18",
+    "lean_props": ["Hive.Props.C18", "Hive.Props.TimedFacts"],
     "regen": regen,
     "lean_namespace": "Hive.Timed",
     "driver": "drv_c18",
@@ -25,10 +61,14 @@ SPEC = {
     "theorems": ["C18_trace_ok", "C18_never_early", "C18_never_early_run", "C18_at_most_once",
                  "C18_cancel_before_pop_never_delivered", "C18_cancel_true_never_runs", "C18_cancel_result",
                  "C18_one_pending_per_id", "C18_cancel_false_nothing_pending", "C18_reschedule_replaces", "C18_after_is_at",
+                 "C18_size_bound", "C18_add_drops_only_when_full", "C18_replace_never_drops",
                  "C18_statement_holds", "C18_cancel_true_iff_prevented", "C18_old_size_bound_witness",
                  "C18_old_after_shutdown_witness", "C18_eventually_delivered", "C18_due_element_moves",
                  "C18_shutdown_wakes_pollers", "C18_skeleton_add", "C18_skeleton_shutdown", "C18_skeleton_poll",
-                 "C18_skeleton_cancel", "C18_skeleton_executor", "C18_skeleton_taskexecutor"],
+                 "C18_skeleton_cancel", "C18_skeleton_executor", "C18_skeleton_taskexecutor",
+                 "C18_facts_queue", "C18_facts_poll", "C18_facts_element", "C18_facts_executor", "C18_facts_taskexecutor",
+                 "C18_facts_heap", "C18_facts_methods", "C18_skeleton_types", "C18_skeleton_helpers", "C18_facts_flags",
+                 "C18_flags_hasBits", "C18_flags_or", "C18_flags_decode", "C18_lock_order"],
     "trusted_base": [
         "hand-written protocol model Hive/Model/Timed.lean of runtime/timed (queue.go, executor.go, taskexecutor.go over container/heap "
         "and generalheap); ties: (1) differential execution of the model's own transition function under a deterministic scheduler "
